@@ -136,7 +136,7 @@ Record trk := mkTrk {
    k_op_up_last_pend; k_op_up_polled; k_pending_item; k_pending_err>.
 
 Definition trk_init : trk :=
-  {| k_type := TFUB; k_par := {| p_cap := 0; p_new := false; p_iter := false; p_lazy := false; p_seed := None; p_hlo := 0; p_hhi := None |};
+  {| k_type := TFUB; k_par := {| p_cap := 0; p_new := false; p_iter := false; p_lazy := None; p_seed := None; p_hlo := 0; p_hhi := None |};
      k_inits := []; k_built := false; k_dropped := false;
      k_accepted := []; k_running := []; k_final := []; k_held := []; k_deque := [];
      k_yielded := []; k_produced := []; k_cdrops := []; k_fin_undropped := []; k_odrops := []; k_refused := [];
